@@ -32,6 +32,9 @@ def _propagate(clauses, assign):
     return "model"
 
 
+CNF_STATS = {"propagations": 0}
+
+
 def cnf_poly_verdict(c):
     """Polynomial oracle on the RECORDED CNF of the implementation, for frameworks of any size (the all-models oracle of
     `driver encspec` stops at 10 arguments / 26 variables): with the argument variables (and the range variables)
@@ -74,6 +77,7 @@ def cnf_poly_verdict(c):
                 G.add(a); D |= targets[a]; ch = True
 
     def run(S):
+        CNF_STATS["propagations"] += 1
         asg = {}
         hit = set()
         for a in S:
@@ -103,7 +107,7 @@ def cnf_poly_verdict(c):
 
 
 def main(ctx):
-    proofs_ok = check_proofs(ctx)
+    proofs_ok = check_proofs(ctx, extra_props=("C10poly",))
     h = build_harness(ctx)
     d = build_driver(ctx)
     if not h or not d:
@@ -157,7 +161,7 @@ def main(ctx):
                 if v.startswith("skipped"):
                     stats["skipped_large"] += 1
                     pv = cnf_poly_verdict(c)
-                    stats["judged_by_the_polynomial_cnf_oracle"] = stats.get("judged_by_the_polynomial_cnf_oracle", 0) + 1
+                    stats["handed_to_the_polynomial_cnf_oracle"] = stats.get("handed_to_the_polynomial_cnf_oracle", 0) + 1
                     if pv is not None:
                         v = pv
                 else:
@@ -195,6 +199,9 @@ def main(ctx):
     if not proofs_ok and not ctx.violations:
         bad = [o[0] for o in ctx.obligations if not o[1]]
         ctx.violation("proof obligations not discharged: %s" % ", ".join(bad), "theorems: %s\n" % ", ".join(bad), found_input=False)
+    poly_oracle_tie(ctx)
+    stats["polynomial_cnf_oracle_propagations"] = CNF_STATS["propagations"]
+    ctx.floor("recorded_cnfs_of_large_frameworks_tested_by_unit_propagation", CNF_STATS["propagations"])
     ctx.cov.update({
         "evaluations": stats["cases"],
         "distinct_nontrivial": len(distinct),
